@@ -180,6 +180,9 @@ func witness(w *world, k int) (*Schedule, error) {
 // probe builds deterministic schedules that are no violations but walk through pool rules the
 // random generator seldom reaches (k = 1..3).
 func probe(w *world, k int) (*Schedule, error) {
+	if k == 4 {
+		return probeCrossover(w)
+	}
 	p := params4(3)
 	nw, err := newNet(w, p)
 	if err != nil {
@@ -230,4 +233,43 @@ func probe(w *world, k int) (*Schedule, error) {
 		b.act(2)
 	}
 	return &Schedule{Label: label, Params: p, Events: b.evs}, nil
+}
+
+// probeCrossover: NO faulty peer, two proposals in one round, each gets one commitment, the
+// commitments cross over. Leader 0 proposes A, its proposal reaches only 2, which endorses and
+// commits A; second proposer 1 proposes B, which reaches only 3; 3's proposal timeout fires, it
+// endorses and commits B. Then 2 gets B's proposal and 3's commitment, 3 gets A's proposal and 2's
+// commitment. The tallies are per proposer (one committer each): nobody may seal.
+func probeCrossover(w *world) (*Schedule, error) {
+	p := params4()
+	nw, err := newNet(w, p)
+	if err != nil {
+		return nil, err
+	}
+	defer nw.close()
+	b := &builder{nw: nw}
+	b.propose(0)
+	b.proc(0, 1)
+	b.propose(1)
+	b.proc(1, 1)
+	b.deliverProposal(2, 0, 0)
+	b.proc(2, 3)
+	b.deliverProposal(3, 1, 0)
+	b.proc(3, 1)
+	b.timer(3, 0)
+	b.act(3)
+	b.proc(3, 2)
+	b.deliverProposal(2, 1, 0)
+	b.deliver(2, 3, "commit", 1, false)
+	b.proc(2, 2)
+	b.act(2)
+	b.deliverProposal(3, 0, 0)
+	b.deliver(3, 2, "commit", 0, false)
+	b.proc(3, 2)
+	b.act(3)
+	b.timer(2, 3)
+	b.act(2)
+	b.timer(3, 3)
+	b.act(3)
+	return &Schedule{Label: "probe/honest-two-proposals-crossover", Params: p, Events: b.evs}, nil
 }
